@@ -61,16 +61,26 @@ func verifBoundaryScalars() [][]byte {
 	return out
 }
 
-// vexpand builds an expanded point and (half of the time) scribbles over the value returned by its accessor:
-// what an accessor returns is the caller's to modify, the expanded point must not change with it
+// vexpand builds an expanded point, in one of three ways: fresh; fresh, with the value returned by its accessor
+// scribbled over (what an accessor returns is the caller's to modify); or as a value copy of a long-lived
+// expanded point that is afterwards re-set to another point (a copy must keep the point it was copied with)
+var vexpandScratch ExpandedEdwardsPoint
+
 func vexpand(g *vpool, p *EdwardsPoint) *ExpandedEdwardsPoint {
-	ep := NewExpandedEdwardsPoint(p)
-	if g.r.Intn(2) == 0 {
+	switch g.r.Intn(3) {
+	case 0:
+		ep := NewExpandedEdwardsPoint(p)
 		q := ep.Point()
 		q.Neg(q)
 		q.Add(q, ED25519_BASEPOINT_POINT)
+		return ep
+	case 1:
+		vexpandScratch.SetEdwardsPoint(p)
+		cp := vexpandScratch
+		vexpandScratch.SetEdwardsPoint(g.point())
+		return &cp
 	}
-	return ep
+	return NewExpandedEdwardsPoint(p)
 }
 
 type vmul struct {
